@@ -222,7 +222,7 @@ theorem dom_only_correct (dedup : Bool) (kind : CutsetKind) (t : DSt Int Int)
 /-- the headline of C09c applies: every run of the solver with the cache and **without** the checker ends with 10 -/
 theorem cache_only_correct (dedup : Bool) (kind : CutsetKind) (t : KSt Int)
     (ht : KRun (sv dedup kind) (KSt.init (sv dedup kind)) t) (hend : t.st.fringe = []) : t.st.completion = (true, some 10) :=
-  ((((caching_solver_correct (sv dedup kind) (H T) 10 80 (wellFormed dedup kind)).2.2 t ht).2.2 hend).1 10 opt10).2.2
+  ((((caching_solver_correct_bestfirst (sv dedup kind) (H T) 10 80 (wellFormed dedup kind)).2.2 t ht).2.2 hend).1 10 opt10).2.2
 
 /-- a best-first run of the solver with cache and checker that ends with the empty fringe, without panic, on 5 -/
 theorem joint_run (dedup : Bool) (kind : CutsetKind) :
@@ -302,7 +302,7 @@ theorem dom_only_correct (dedup : Bool) (kind : CutsetKind) (t : DSt Int Int)
 
 theorem cache_only_correct (dedup : Bool) (kind : CutsetKind) (t : KSt Int)
     (ht : KRun (sv dedup kind) (KSt.init (sv dedup kind)) t) (hend : t.st.fringe = []) : t.st.completion = (true, some 15) :=
-  ((((caching_solver_correct (sv dedup kind) (H T) 10 80 (wellFormed dedup kind)).2.2 t ht).2.2 hend).1 15 opt15).2.2
+  ((((caching_solver_correct_bestfirst (sv dedup kind) (H T) 10 80 (wellFormed dedup kind)).2.2 t ht).2.2 hend).1 15 opt15).2.2
 
 theorem joint_run (dedup : Bool) (kind : CutsetKind) :
     ∃ t, KDRun (dv dedup kind) (KDSt.init (dv dedup kind)) t ∧ t.st.fringe = [] ∧ t.st.crashed = false ∧
@@ -354,7 +354,7 @@ theorem dom_only_correct (dedup : Bool) (kind : CutsetKind) (t : DSt Int Int)
 
 theorem cache_only_correct (dedup : Bool) (kind : CutsetKind) (t : KSt Int)
     (ht : KRun (sv dedup kind) (KSt.init (sv dedup kind)) t) (hend : t.st.fringe = []) : t.st.completion = (true, some 10) :=
-  ((((caching_solver_correct (sv dedup kind) (H T) 10 80 (wellFormed dedup kind)).2.2 t ht).2.2 hend).1 10 opt10).2.2
+  ((((caching_solver_correct_bestfirst (sv dedup kind) (H T) 10 80 (wellFormed dedup kind)).2.2 t ht).2.2 hend).1 10 opt10).2.2
 
 theorem joint_run (dedup : Bool) (kind : CutsetKind) :
     ∃ t, KDRun (dv dedup kind) (KDSt.init (dv dedup kind)) t ∧ t.st.fringe = [] ∧ t.st.crashed = false ∧
@@ -404,7 +404,7 @@ theorem finding :
       t.st.completion = (true, some 7)) := by
   refine ⟨wellFormed true .lel, opt13, undomOpt, ?_, ?_, ?_⟩
   · intro t ht hend
-    exact ((((caching_solver_correct (sv true .lel) (H T) 10 80 (wellFormed true .lel)).2.2 t ht).2.2 hend).1 13 opt13).2.2
+    exact ((((caching_solver_correct_bestfirst (sv true .lel) (H T) 10 80 (wellFormed true .lel)).2.2 t ht).2.2 hend).1 13 opt13).2.2
   · intro t ht hend
     exact (((dominance_solver_optimal (dv true .lel) (H T) 10 80 13 (wellFormed true .lel) opt13 undomOpt).2.2 t ht).2 hend).2.2
   · exact ⟨_, kdsolveLoop_run (dv true .lel) 8 _, List.eq_nil_of_length_eq_zero joint_value.1, joint_value.2.2.2, joint_value.2.1⟩
